@@ -1324,6 +1324,8 @@ class Spec(object):
             return [(Z, lin_sub(E0, L(s)), ('old', Z))]
         if bn == 'clear' and k == ():
             return []
+        if bn == 'swap' and len(k) == 1:
+            return ('swap', self.cur['pos'][0])
         if bn in ('assign', 'small_vector::small_vector', 'operator=') :
             kk = k[:-1] if (k and k[-1] == 'alloc') else k
             ctor = bn == 'small_vector::small_vector'
@@ -1344,19 +1346,29 @@ class Spec(object):
                 return []
         return None
 
-    def check_placement(self, ex, segs, eng):
-        """-> (verdict, text, detail): verdict 'ok' | 'undecided' | 'bad'"""
+    def check_placement(self, ex, segs, eng, k=0, strays=True):
+        """-> (verdict, text, detail): verdict 'ok' | 'undecided' | 'bad'.  k: which argument is the
+        container whose final sequence is judged (0 = *this)."""
         c = self.cur
         s = c['lay']['stride']
         eqs = ex['eqs']
         effs = ex['effects']
         if effs is None:
             return ('undecided', 'an element operation on the path is not understood', None)
-        D0 = atom(('init', self.cell(0)))
-        D1 = ex['val'](self.cell(0))
+        if isinstance(segs, tuple) and segs and segs[0] == 'swap':
+            # both containers: each ends up with the other's entry sequence
+            S0 = atom(('init', self.cell(2)))
+            ko = segs[1]
+            OS0 = atom(('init', self.cell(2, ko)))
+            v1 = self.check_placement(ex, [(L(0), lin_scale(OS0, s), ('input', atom(('init', self.cell(0, ko)))))], eng, 0, False)
+            if v1[0] != 'ok':
+                return v1
+            return self.check_placement(ex, [(L(0), lin_scale(S0, s), ('input', atom(('init', self.cell(0)))))], eng, ko, False)
+        D0 = atom(('init', self.cell(0, k)))
+        D1 = ex['val'](self.cell(0, k))
         if D1 is None:
             return ('undecided', 'data pointer unknown', None)
-        ctor = c['bn'] == 'small_vector::small_vector'
+        ctor = c['bn'] == 'small_vector::small_vector' and k == 0
         inplace = (not ctor) and same(D1, D0, eqs)
         # otherwise the sequence lives somewhere else afterwards (a fresh buffer, the object's own
         # inline buffer, a buffer adopted from the argument): everything that is not already there
@@ -1402,9 +1414,21 @@ class Spec(object):
         writes = []
         for i, e in enumerate(effs):
             what = e[0]
-            if what in ('bytefill', 'swap'):
-                return ('undecided', 'byte fill or swapping element operation', None)
+            if what == 'bytefill':
+                return ('undecided', 'byte fill over element storage', None)
             if what == 'destroy':
+                continue
+            if what == 'swap':
+                # each side receives what the other held
+                if e[5] is None:
+                    return ('undecided', 'swap without a second operand', None)
+                b1 = e[3] if e[3] is not None else lin_add(e[2], L(s))
+                sb1 = e[6] if e[6] is not None else lin_add(e[5], L(s))
+                single = e[3] is None
+                writes.append({'i': i, 'what': what, 'how': '', 'a': e[2], 'b': b1, 'sk': 'range', 'sa': e[5], 'sb': sb1,
+                               'dir': 0, 'used': False, 'single': single})
+                writes.append({'i': i, 'what': what, 'how': '', 'a': e[5], 'b': sb1, 'sk': 'range', 'sa': e[2], 'sb': b1,
+                               'dir': 0, 'used': False, 'single': single})
                 continue
             if is_temp(e[2]):
                 temps[e[2]] = e
@@ -1494,7 +1518,7 @@ class Spec(object):
                             {'write': [rd(w['a']), rd(w['b'])], 'source': [w['sk'], rd(w['sa']) if w['sa'] is not None else None],
                              'expected_source': [src[0]] + [rd(x) for x in src[1:]]})
                 cur = w['b']
-        stray = [x for x in writes if not x['used'] and not same(x['a'], x['b'], eqs)]
+        stray = [x for x in writes if not x['used'] and not same(x['a'], x['b'], eqs)] if strays else []
         if stray:
             x = stray[0]
             return ('bad', 'an element operation writes [%s, %s), which is not part of what the operation specifies'
